@@ -465,6 +465,32 @@ pub fn gen_smb2_session_setup(rng: &mut Rng) -> Vec<u8> {
     nbt(&m)
 }
 
+/// SMB1 session setup in the layout without extended security (13 words: OEM and Unicode
+/// password lengths), with every kind of length value. Whether it is answered is open (the
+/// statement speaks of security blobs); it must not hurt.
+pub fn gen_smb1_session_setup_wc13(rng: &mut Rng) -> Vec<u8> {
+    let h = gen_hdr1(rng, 0x73);
+    let edge = |rng: &mut Rng| -> u16 { *rng.pick(&[0u16, 1, 24, 255, 256, 0x7fff, 0x8000, 0xfffe, 0xffff]) };
+    let (l1, l2) = (edge(rng), edge(rng));
+    let data = rng.bytes_range(0, 80);
+    let mut m = h.encode();
+    m.push(13);
+    m.push(0xff);
+    m.push(0);
+    m.extend_from_slice(&rng.u16().to_le_bytes()); // AndXOffset
+    m.extend_from_slice(&rng.u16().to_le_bytes()); // MaxBufferSize
+    m.extend_from_slice(&rng.u16().to_le_bytes()); // MaxMpxCount
+    m.extend_from_slice(&rng.u16().to_le_bytes()); // VcNumber
+    m.extend_from_slice(&rng.u32().to_le_bytes()); // SessionKey
+    m.extend_from_slice(&l1.to_le_bytes()); // OEMPasswordLen
+    m.extend_from_slice(&l2.to_le_bytes()); // UnicodePasswordLen
+    m.extend_from_slice(&[0; 4]);
+    m.extend_from_slice(&rng.u32().to_le_bytes()); // Capabilities
+    m.extend_from_slice(&(data.len() as u16).to_le_bytes());
+    m.extend_from_slice(&data);
+    nbt(&m)
+}
+
 /// Requests that must not be answered: response flag set, or another command.
 pub fn gen_fault(rng: &mut Rng) -> Vec<u8> {
     let mut v = match rng.below(4) {
